@@ -7,7 +7,7 @@ slot=${MUT_SLOT:-0}
 wt=/dev/shm/mutrun$slot/wt; bd=/dev/shm/mutrun$slot/build
 mkdir -p /dev/shm/mutrun$slot
 if [ ! -d $wt ]; then git -C /repo worktree add -q --detach $wt HEAD || exit 3; fi
-git -C $wt checkout -q --detach ${MUT_BASE:-$(git -C /repo rev-parse HEAD)} && git -C $wt checkout -q -- . || exit 3
+git -C $wt reset -q --hard; git -C $wt checkout -q --detach ${MUT_BASE:-$(git -C /repo rev-parse HEAD)} && git -C $wt checkout -q -- . || exit 3
 git -C $wt apply "$patch" || { echo "PATCH DOES NOT APPLY"; exit 3; }
 cd /verif
 VERIF_REPO=$wt VERIF_BUILD=$bd VERIF_EVIDENCE_DIR=/dev/shm/mutrun$slot/evidence VERIF_REPLAY_DIR=/dev/shm/mutrun$slot/replays ./check $id --tier $tier > /dev/shm/mutrun$slot/out.txt 2>&1
